@@ -444,15 +444,56 @@ pub fn check_ffi(case: &Case, st: &mut Stats) -> Check {
 
 /// Decodes a libFuzzer input of the `open_structured` target into its case
 /// (the fuzzer's bytes drive the proptest strategy through the pass-through RNG).
+/// Decodes a libFuzzer input of the structured target: the first 8 bytes
+/// select the valid database (they seed the same proptest strategy the
+/// in-process search uses), every following 8-byte record is one corruption
+/// operator (tag byte, then its parameters), at most 8 of them.  One mutated
+/// byte changes one parameter of one operator, so coverage feedback can steer.
+///
+/// (An earlier version drove the whole strategy from the fuzzer's bytes with
+/// proptest's pass-through generator.  That generator halves its remaining
+/// data at every `prop_flat_map` and yields zeros once it runs out, and the
+/// rejection sampler behind every integer range whose size is not a power of
+/// two rejects an all-zero draw for ever: the generator, not the library under
+/// test, hung.  See DESIGN.md section 10.4.)
 pub fn case_from_fuzz_bytes(data: &[u8]) -> Option<Case> {
     use proptest::strategy::ValueTree;
     use proptest::test_runner::{Config, RngAlgorithm, TestRng, TestRunner};
     if data.len() < 8 {
         return None;
     }
-    let rng = TestRng::from_seed(RngAlgorithm::PassThrough, data);
+    let seed = u64::from_le_bytes([data[0], data[1], data[2], data[3], data[4], data[5], data[6], data[7]]);
+    let rng = TestRng::from_seed(RngAlgorithm::ChaCha, &crate::engine::mix_seed(seed, "fuzz-db", 0));
     let mut runner = TestRunner::new_with_rng(Config { failure_persistence: None, ..Config::default() }, rng);
-    case_strategy().new_tree(&mut runner).ok().map(|t| t.current())
+    let mut case = case_strategy_with(0.0).new_tree(&mut runner).ok().map(|t| t.current())?;
+    case.corrupt = data[8..].chunks(8).take(8).map(decode_corrupt).collect();
+    Some(case)
+}
+
+fn decode_corrupt(c: &[u8]) -> Corrupt {
+    let b = |i: usize| c.get(i).copied().unwrap_or(0);
+    let w = |i: usize| u16::from_le_bytes([b(i), b(i + 1)]);
+    let rest = |i: usize| -> Vec<u8> {
+        let v: Vec<u8> = c.iter().skip(i).copied().collect();
+        if v.is_empty() {
+            vec![0xff]
+        } else {
+            v
+        }
+    };
+    match b(0) % 11 {
+        0 => Corrupt::Cell { table: w(1), row: w(3), col: w(5), kind: b(7) },
+        1 => Corrupt::SetBytes { stream: w(1), offset: w(3), bytes: rest(5) },
+        2 => Corrupt::Truncate { stream: w(1), keep: w(3) },
+        3 => Corrupt::Extend { stream: w(1), extra: rest(3) },
+        4 => Corrupt::Empty { stream: w(1) },
+        5 => Corrupt::Remove { stream: w(1) },
+        6 => Corrupt::ToStorage { stream: w(1) },
+        7 => Corrupt::PoolHeader(b(1)),
+        8 => Corrupt::PoolEntry { index: w(1), kind: b(3) },
+        9 => Corrupt::Prop { kind: b(1), which: b(2) },
+        _ => Corrupt::Clsid(b(1)),
+    }
 }
 
 /// Thorough tier: one coverage-guided libFuzzer campaign (cargo-fuzz) whose
@@ -497,13 +538,16 @@ fn fuzz_campaign(ctx: &Ctx, target: &str, runs: u64, st: &mut Stats) -> Vec<crat
             std::process::exit(2);
         }
     }
-    let per_job = runs / 8;
+    // VERIF_FUZZ_RUNS: smaller campaigns while working on the harness itself
+    let runs = std::env::var("VERIF_FUZZ_RUNS").ok().and_then(|v| v.parse::<u64>().ok()).unwrap_or(runs);
+    let per_job = (runs / 16).max(1);
     let out = std::process::Command::new("cargo")
         .args(["+nightly", "fuzz", "run", "-O", target, &corpus, "--"])
-        .args([format!("-runs={per_job}"), format!("-seed={}", (ctx.seed % 0xffff_fffe) + 1), "-len_control=0".into(), "-max_len=65536".into(), "-rss_limit_mb=4096".into(), "-malloc_limit_mb=2048".into(), "-timeout=120".into(), "-jobs=8".into(), "-workers=8".into(), "-print_final_stats=1".into()])
+        .args([format!("-runs={per_job}"), format!("-seed={}", (ctx.seed % 0xffff_fffe) + 1), "-len_control=0".into(), format!("-max_len={}", if target == "open_raw" { 65536 } else { 72 }), "-rss_limit_mb=4096".into(), "-malloc_limit_mb=2048".into(), "-timeout=120".into(), "-jobs=16".into(), "-workers=16".into(), "-print_final_stats=1".into()])
         .current_dir(&crate_dir)
         .env("CARGO_NET_OFFLINE", "true")
         .env("RUST_BACKTRACE", "0")
+        .env("VERIF_DIR", &dir)
         .output();
     let out = match out {
         Ok(o) => o,
@@ -512,8 +556,17 @@ fn fuzz_campaign(ctx: &Ctx, target: &str, runs: u64, st: &mut Stats) -> Vec<crat
             std::process::exit(2);
         }
     };
-    st.evals(per_job * 8);
-    st.class_n(&format!("libfuzzer:{target}:runs"), per_job * 8);
+    // libFuzzer's -jobs mode leaves one log per job in the working directory
+    if let Ok(rd) = std::fs::read_dir(&crate_dir) {
+        for e in rd.flatten() {
+            let n = e.file_name().to_string_lossy().to_string();
+            if n.starts_with("fuzz-") && n.ends_with(".log") {
+                let _ = std::fs::remove_file(e.path());
+            }
+        }
+    }
+    st.evals(per_job * 16);
+    st.class_n(&format!("libfuzzer:{target}:runs"), per_job * 16);
     let mut viols = Vec::new();
     let mut arts: Vec<std::path::PathBuf> = std::fs::read_dir(&artifacts).map(|rd| rd.flatten().map(|e| e.path()).collect()).unwrap_or_default();
     arts.sort();
@@ -573,7 +626,11 @@ fn corrupt_strategy() -> impl Strategy<Value = Corrupt> {
 }
 
 pub fn case_strategy() -> impl Strategy<Value = Case> {
-    (db_strategy(), prop::collection::vec(corrupt_strategy(), 0..4)).prop_map(|(mut db, corrupt)| {
+    case_strategy_with(0.06)
+}
+
+pub fn case_strategy_with(long_weight: f64) -> impl Strategy<Value = Case> {
+    (crate::props::c02::db_strategy_with(long_weight), prop::collection::vec(corrupt_strategy(), 0..4)).prop_map(|(mut db, corrupt)| {
         // keep the files small: the battery does the heavy lifting
         db.pool.leading_holes = 0;
         for t in db.tables.iter_mut() {
